@@ -573,12 +573,21 @@ private:
     auto& wheel = _wheels[level];
     auto& bucket = wheel.buckets[wheel.currentTick & _tickMask];
 
-    auto* entry = bucket.head;
-    while (entry)
+    // Detach the whole bucket first. Re-inserting a not-yet-due entry can land
+    // it in THIS bucket again (top level, delay beyond the wheel span); walking
+    // the live list would then chase entries that re-link behind each other
+    // forever while _wheelMutex is held.
+    std::vector<TimerEntry*> pending;
+    for (auto* e = bucket.head; e != nullptr;)
     {
-      auto* next = entry->next;
-      bucket.unlink(entry);
+      auto* next = e->next;
+      bucket.unlink(e);
+      pending.push_back(e);
+      e = next;
+    }
 
+    for (auto* entry : pending)
+    {
       if (entry->deadline <= now)
       {
         _entryMap.erase(entry->id);
@@ -591,7 +600,6 @@ private:
           entry->deadline - now);
         insertEntry(entry, remaining);
       }
-      entry = next;
     }
 
     wheel.currentTick++;
